@@ -28,6 +28,13 @@ Theorem C04_signed_range : forall n u, 1 <= n -> 0 <= u < 2 ^ n ->
 Proof. exact signed_of_range. Qed.
 Print Assumptions C04_signed_range.
 
+(* signed decoding inverts the two's complement encoding: every integer of the n-bit signed range is the
+   decoded value of exactly its own n-bit pattern (with C04_signed_range: a bijection pattern <-> value) *)
+Theorem C04_signed_inverse : forall n x, 1 <= n -> - 2 ^ (n - 1) <= x < 2 ^ (n - 1) ->
+  0 <= x mod 2 ^ n < 2 ^ n /\ signed_of n (x mod 2 ^ n) = x /\ twos_complement (x mod 2 ^ n) n = x.
+Proof. exact signed_of_inverse. Qed.
+Print Assumptions C04_signed_inverse.
+
 (* least significant byte first, whole-byte widths: value of the field's bytes in reverse order *)
 Theorem C04_lsb_uint : forall B p n env, wf B -> 0 <= p -> 1 <= n -> p + n <= 8 * zlen B -> n mod 8 = 0 ->
   parse_numeric (plain_int n false LSB) env {| cdata := B; cpos := p |}
